@@ -175,7 +175,7 @@ PRIMS = ("mask", "cadd", "csub", "wmul", "leading_zeros", "leading_ones", "trail
 
 def _signature(b, ty):
     buf = io.StringIO()
-    dump.dump_body(b, buf)
+    dump.dump_body(b, buf, with_idx=False)
     s = buf.getvalue()
     s = "\n".join(l for l in s.splitlines()[2:])
     s = s.replace(" as usize", " as USIZE").replace("length: usize", "length: USIZE")
@@ -187,7 +187,7 @@ def _signature(b, ty):
 
 def _raw_sig(b):
     buf = io.StringIO()
-    dump.dump_body(b, buf)
+    dump.dump_body(b, buf, with_idx=False)
     return "\n".join(buf.getvalue().splitlines()[2:])
 
 
@@ -214,7 +214,7 @@ def word_primitives(crate):
             for ty in ("u8", "u16", "u32", "u64", "usize"):
                 b = impls[ty]
                 buf = io.StringIO()
-                dump.dump_body(b, buf)
+                dump.dump_body(b, buf, with_idx=False)
                 raw = buf.getvalue()
                 m = re.search(r"\(self as (u\d+)\) \* \(rhs as (u\d+)\)", raw)
                 if not m or m.group(1) != m.group(2):
